@@ -19,8 +19,9 @@ type c10Case struct {
 
 func init() {
 	mc.Register(&mc.Property{
-		ID:    "C10",
-		Level: "exploration",
+		ID:     "C10",
+		Word32: true,
+		Level:  "exploration",
 		Rule: "E1 bounded-exhaustive enumeration: every height h in [0,32] × every length l ≤ min(h,L) × every l-bit prefix: NewPath/PathLen/PathHeight/PathBits/PathMask/PathStr against the prefix as a '0'/'1' string; and every ordered pair of such nodes of equal height: word order == string order (= pre-order: ancestor first, left before right). " +
 			"A case is one node or one pair; non-trivial when l ≥ 1 (pairs: both non-root and different).",
 		Assumptions: []string{"prefix lengths above L are covered only through C03/C05's tall families"},
